@@ -1,7 +1,7 @@
 #!/usr/bin/env python3
-"""Applies every seeded change to /repo in turn (git apply), runs the check of its own property (quick tier),
-records which rules report it, and reverts (git checkout). Writes seeded/RESULTS.json and seeded/RESULTS.md.
-usage: seeded_matrix.py [ids...]"""
+"""Applies every seeded change to /repo in turn (git apply), runs all 20 properties' quick rules in one process
+(`scverif sweep`: no evidence is written), records which rules report it, and reverts (git checkout).
+Writes seeded/RESULTS.json and seeded/RESULTS.md.   usage: seeded_matrix.py [ids...]   (default: all)"""
 import json, os, re, subprocess, sys
 root = "/verif/seeded"
 ids = sys.argv[1:] or sorted(d for d in os.listdir(root) if os.path.isdir(os.path.join(root, d)))
@@ -19,20 +19,28 @@ for i in ids:
     if a.returncode != 0:
         res[i] = {"property": prop, "status": "patch does not apply", "rules": []}
         sh("git", "-C", "/repo", "checkout", "HEAD", "--", ".")
+        print(i, "DOES NOT APPLY", flush=True)
         continue
-    r = sh("/verif/bin/scverif", "check", prop, "--tier", "quick", env=dict(os.environ, SCVERIF_EVIDENCE_DIR="/tmp/scverif-seeded-evidence"))
+    r = sh("/verif/bin/scverif", "sweep")
     sh("git", "-C", "/repo", "checkout", "HEAD", "--", ".")
-    rules = sorted(set(re.findall(r"^VIOLATION (R[0-9.]+)\|", r.stdout, re.M)))
-    undec = sorted(set(re.findall(r"^UNDECIDED (R[0-9.]+)\|", r.stdout, re.M)))
-    keys = [l[10:].split(" at ")[0] for l in r.stdout.splitlines() if l.startswith("VIOLATION R")][:4]
-    res[i] = {"property": prop, "exit": r.returncode, "rules": rules, "undecided": undec, "constructs": keys,
+    own, own_u, other, keys = set(), set(), set(), []
+    for l in r.stdout.splitlines():
+        m = re.match(r"SWEEP (C\d+) (\w+) (R[0-9.]+)\|(.*)", l)
+        if not m: continue
+        p, verdict, rule, rest = m.groups()
+        if p == prop:
+            (own if verdict == "violation" else own_u).add(rule)
+            if len(keys) < 4: keys.append(rule + "|" + rest)
+        else:
+            other.add(rule)
+    res[i] = {"property": prop, "rules": sorted(own), "undecided": sorted(own_u - own), "other_checks": sorted(other), "constructs": keys,
               "title": meta.get("title", meta.get("description", ""))[:160], "note": meta.get("note", "")}
-    print(i, r.returncode, rules, undec, flush=True)
+    print(i, sorted(own), sorted(own_u - own), sorted(other), flush=True)
 json.dump(res, open(resp, "w"), indent=1, sort_keys=True)
 with open(os.path.join(root, "RESULTS.md"), "w") as f:
-    f.write("| seeded change | what it breaks | reported by (own property's check) |\n|---|---|---|\n")
+    f.write("| seeded change | what it breaks | reported by its own property's check | also reported by |\n|---|---|---|---|\n")
     for i in sorted(res):
         e = res[i]
         by = ", ".join(e["rules"]) or ("UNDECIDED " + ", ".join(e.get("undecided", [])) if e.get("undecided") else "— not reported" + (" (see note)" if e.get("note") else ""))
-        f.write("| %s | %s | %s |\n" % (i, e.get("title", "").replace("|", "/"), by))
+        f.write("| %s | %s | %s | %s |\n" % (i, e.get("title", "").replace("|", "/"), by, ", ".join(e.get("other_checks", []))))
 print("written", resp)
